@@ -1514,7 +1514,9 @@ class ClientRequest(ClientRequestBase):
             set_exception(protocol, reraised_exc, underlying_exc)
         except asyncio.CancelledError:
             # Body hasn't been fully sent, so connection can't be reused
-            conn.close()
+            # (without a declared body nothing is outstanding on the wire)
+            if self.chunked or content_length:
+                conn.close()
             raise
         except Exception as underlying_exc:
             set_exception(
